@@ -34,11 +34,19 @@ RULE = ("every class of the live table (core: saml, samlp, md, xmldsig, xmlenc, 
         "arbitrary order and repeated, unknown children and attributes, look-alike names in other namespaces) rendered "
         "independently of the library; root-mismatch documents; AttributeValue typing table enumerated completely "
         "(type spelling x text class x nil x extension children); implementation-only refusal checks. "
+        "Round 2: every class with >= 2 child members x one instance and one document with EVERY child member present at "
+        "once (all pairs of children in one element), schema order judged by the ranks of the XML Schema files; every "
+        "document is handed over in a seeded INPUT FORM (str / UTF-8 / UTF-8+BOM / UTF-16 LE,BE with and without BOM / "
+        "ISO-8859-1 / US-ASCII / windows-1252, with no, a bare or a matching XML declaration); entity-declaring documents "
+        "(12 shapes incl. white-space variants, ATTLIST defaults) x every input form x padding before the DOCTYPE x entry "
+        "point (6 classes completely, every core class once, saml2.extension_element_from_string). "
         "non-trivial = distinct (kind, class, outcome, shape features: foreign elements/attributes, repeated singleton, "
         "character classes)")
 TRUSTED = ["independent reader: xml.etree.ElementTree (expat) applied to the library's output",
            "document renderer and object/tree abstraction in harness/c12.py (renderer self-checked against the reader)",
-           "translator harness/classtables.py (fail-closed)", "sparse->dense object adaptor C12.Corr.dense"]
+           "translator harness/classtables.py (fail-closed)", "sparse->dense object adaptor C12.Corr.dense",
+           "schema order oracle: src/saml2/data/schemas/*.xsd flattened to ranks by harness/c12.py (Schemas / merge_ranks; "
+           "over-approximates: repeatable groups and names met twice share a rank)"]
 ASSUMPTIONS = ["character data before the first child is the element's text; tails (character data after a child) are "
                "not read by the code and not part of the tree model",
                "what ElementTree.tostring writes and expat reads back is the identity on trees except: keys spelled "
@@ -46,7 +54,9 @@ ASSUMPTIONS = ["character data before the first child is the element's text; tai
                "against the independent reader",
                "AttributeValueBase: conversions of xs:float/double/date are not restated (implementation-only check); "
                "integer/boolean text restated for ASCII; str.strip() restated for ASCII whitespace",
-               "entity refusal, malformed-input refusal and byte-identity are checked on the implementation only"]
+               "entity refusal, malformed-input refusal and byte-identity are checked on the implementation only",
+               "the encoding / XML declaration / BOM of a document is not part of the tree model: the same tree is expected "
+               "from every input form (checked against the independent reader on the same bytes)"]
 
 XSI = "http://www.w3.org/2001/XMLSchema-instance"
 XS = "http://www.w3.org/2001/XMLSchema"
@@ -70,11 +80,15 @@ def regenerate_tables(ctx):
     # the case files need C12/Corr.vo against the table just written, also when a table obligation (C12/Live.v)
     # fails afterwards: then the correspondence still runs and names the failing input
     info["vocabulary"] = write_vocab()
+    info["schema_order_oracle"] = write_schema()
     common.coq_make(["theories/C12/Corr.vo"], jobs=4)
-    # obligation discharged by vm_compute in C12/Live.v (live_table_ok): EVERY live class parses and serialises
-    # consistently (wf_class); the driver zeroes it when the build breaks
-    info.update({"obligations": info["classes"], "discharged": info["classes"],
-                 "unit": "live classes checked: wf_class, no exception list (C12/Live.v live_table_ok)"})
+    # obligations discharged by vm_compute in C12/Live.v: EVERY live class parses and serialises consistently
+    # (live_table_ok: wf_class) and the order table of every class with a content model in the shipped XML Schema
+    # files never contradicts that model (live_xsd_ok); the driver zeroes them when the build breaks
+    n = info["classes"] + info["schema_order_oracle"]["with_content_model"]
+    info.update({"obligations": n, "discharged": n,
+                 "unit": "live classes checked: wf_class, no exception list (C12/Live.v live_table_ok) + classes whose "
+                         "c_child_order is checked against the XSD content model (live_xsd_ok)"})
     return info
 
 
@@ -134,6 +148,212 @@ def write_vocab():
         txt.append("Definition %s : string := %s." % (ids[w], lit))
     changed = common.write_if_changed(VOCAB_OUT, "\n".join(txt) + "\n")
     return {"words": len(words), "changed": changed}
+
+
+# ---------------------------------------------------------------------------- schema order oracle (XSD -> ranks)
+# "children (in schema order)": the library's own c_child_order cannot be the judge of itself.  The XML Schema
+# files shipped in src/saml2/data/schemas are read here (nothing of the library is used) and every content model
+# is flattened into RANKS of the child element names such that in every schema-valid element the ranks of the
+# children never decrease (C12/Xsd.v): sequence = increasing blocks, choice = alternatives start together,
+# anything repeatable = one rank for all names inside, a name met at two ranks = the ranks between are merged.
+# Classes for which no schema declares the element / type (dri, mdrpi, pefim, shibmd, ws-*) get no ranks.
+SCHEMA_OUT = os.path.join(common.GEN, "C12Schema.v")
+XSD_NS = "http://www.w3.org/2001/XMLSchema"
+
+
+def _x(n):
+    return "{%s}%s" % (XSD_NS, n)
+
+
+class Unrankable(Exception):
+    pass
+
+
+class Schemas:
+    def __init__(self, directory):
+        import glob
+
+        self.elements, self.types, self.groups, self.local = {}, {}, {}, {}
+        self.files = 0
+        for p in sorted(glob.glob(os.path.join(directory, "*.xsd"))):
+            root = ET.parse(p).getroot()
+            if root.tag != _x("schema"):
+                continue
+            nsmap = {}
+            for _ev, v in ET.iterparse(p, events=("start-ns",)):
+                nsmap.setdefault(v[0], v[1])
+            tns = root.get("targetNamespace")
+            sch = (tns, root.get("elementFormDefault") == "qualified", nsmap, os.path.basename(p))
+            self.files += 1
+            for ch in root:
+                tbl = {_x("element"): self.elements, _x("complexType"): self.types, _x("group"): self.groups}.get(ch.tag)
+                if tbl is not None and ch.get("name"):
+                    tbl.setdefault((tns, ch.get("name")), []).append((ch, sch))
+            top = {id(ch) for ch in root}
+            for el in root.iter(_x("element")):          # local element declarations (not the top-level ones)
+                if el.get("name") and id(el) not in top:
+                    self.local.setdefault(self.local_name(el, sch), []).append((el, sch))
+
+    @staticmethod
+    def local_name(el, sch):
+        form = el.get("form")
+        qual = sch[1] if form is None else form == "qualified"
+        return (sch[0] if qual else None, el.get("name"))
+
+    @staticmethod
+    def qn(s, sch):
+        if ":" in s:
+            p, l = s.split(":", 1)
+            return (sch[2].get(p), l)
+        return (sch[2].get(""), s)
+
+    # -- flattening
+    def type_model(self, ct, sch, out, r, depth=0):
+        if depth > 20:
+            raise Unrankable("type derivation too deep")
+        for ch in ct:
+            if ch.tag == _x("complexContent"):
+                for d in ch:
+                    if d.tag == _x("extension"):
+                        base = self.qn(d.get("base"), sch)
+                        if base[0] != XSD_NS:
+                            bs = self.types.get(base)
+                            if not bs:
+                                raise Unrankable("base type %r not found" % (base,))
+                            r = self.type_model(bs[0][0], bs[0][1], out, r, depth + 1)
+                        r = self.particles(d, sch, out, r, False, depth)
+                    elif d.tag == _x("restriction"):
+                        r = self.particles(d, sch, out, r, False, depth)
+            elif ch.tag in (_x("sequence"), _x("choice"), _x("group"), _x("all")):
+                r = self.particle(ch, sch, out, r, False, depth)
+        return r
+
+    def particles(self, node, sch, out, r, collapse, depth):
+        for ch in node:
+            if ch.tag in (_x("sequence"), _x("choice"), _x("group"), _x("all"), _x("element")):
+                r2 = self.particle(ch, sch, out, r, collapse, depth)
+                if not collapse:
+                    r = r2
+        return r
+
+    def particle(self, p, sch, out, r, collapse, depth):
+        if depth > 20:
+            raise Unrankable("group nesting too deep")
+        many = collapse or p.get("maxOccurs", "1") != "1"
+        if p.tag == _x("element"):
+            out.append((self.qn(p.get("ref"), sch) if p.get("ref") else self.local_name(p, sch), r))
+            return r if collapse else r + 1
+        if p.tag == _x("group"):
+            g = self.groups.get(self.qn(p.get("ref"), sch))
+            if not g:
+                raise Unrankable("group %r not found" % p.get("ref"))
+            e = r
+            for ch in g[0][0]:
+                if ch.tag in (_x("sequence"), _x("choice"), _x("all")):
+                    e = max(e, self.particle(ch, g[0][1], out, r, many, depth + 1))
+            return r if collapse else (r + 1 if many else e)
+        if many or p.tag == _x("all"):
+            self.particles(p, sch, out, r, True, depth)
+            return r if collapse else r + 1
+        if p.tag == _x("sequence"):
+            return self.particles(p, sch, out, r, False, depth)
+        e = r                                         # choice, taken once: the alternatives start together
+        for ch in p:
+            if ch.tag in (_x("sequence"), _x("choice"), _x("group"), _x("element")):
+                e = max(e, self.particle(ch, sch, out, r, False, depth))
+        return e
+
+    def models(self, tag):
+        """The content models declared for the element / type name tag: a list of {child name: rank}."""
+        cands = []
+        decls = self.elements.get(tag) or self.local.get(tag) or []
+        for el, sch in decls:
+            t = el.get("type")
+            if t:
+                tq = self.qn(t, sch)
+                if tq[0] == XSD_NS:
+                    cands.append(None)
+                else:
+                    cands += list(self.types.get(tq, []))
+            else:
+                ct = el.find(_x("complexType"))
+                cands.append((ct, sch) if ct is not None else None)
+        cands += list(self.types.get(tag, []))
+        res = []
+        for c in cands:
+            out = []
+            if c is not None:
+                self.type_model(c[0], c[1], out, 0)
+            res.append(merge_ranks(out))
+        return res
+
+
+def merge_ranks(pairs):
+    """[(name, rank)] -> {name: rank}; a name met at two ranks merges every rank between them (sound: accepts more)."""
+    pairs = list(pairs)
+    while True:
+        lo, hi = {}, {}
+        for q, r in pairs:
+            lo[q] = min(lo.get(q, r), r)
+            hi[q] = max(hi.get(q, r), r)
+        spans = [(lo[q], hi[q]) for q in lo if lo[q] != hi[q]]
+        if not spans:
+            return dict(pairs)
+        a, b = spans[0]
+        pairs = [(q, a if a <= r <= b else r) for q, r in pairs]
+
+
+_XSD = None
+
+
+def xsd_ranks():
+    """{class index: [(child tag, rank)]} for every class with children whose element / type a schema declares,
+    plus counters.  Only child names the class registers get a rank (others would never be looked up)."""
+    global _XSD
+    if _XSD is None:
+        S = Schemas(os.path.join(env.SRC, "saml2", "data", "schemas"))
+        if not S.files:
+            raise RuntimeError("no XML Schema files under %s/saml2/data/schemas: no oracle for schema order" % env.SRC)
+        ranks, info = {}, {"schema_files": S.files, "classes_with_children": 0, "with_content_model": 0,
+                           "with_two_or_more_ranked_children": 0, "no_schema": 0, "unrankable": [], "ambiguous": []}
+        for i, r in enumerate(tab().classes):
+            if not r.children:
+                continue
+            info["classes_with_children"] += 1
+            try:
+                ms = S.models(r.tag)
+            except Unrankable as e:
+                info["unrankable"].append("%s: %s" % (r.name, e))
+                continue
+            if not ms:
+                info["no_schema"] += 1
+                continue
+            if any(m != ms[0] for m in ms):
+                info["ambiguous"].append(r.name)       # two schemas declare the name differently: no oracle
+                continue
+            m = [(t, ms[0][t]) for t, _m, _k, _l in r.children if t in ms[0]]
+            if m:
+                ranks[i] = m
+                info["with_content_model"] += 1
+                if len(m) >= 2:
+                    info["with_two_or_more_ranked_children"] += 1
+        _XSD = (ranks, info)
+    return _XSD
+
+
+def write_schema():
+    ranks, info = xsd_ranks()
+    txt = ["(* GENERATED by harness/c12.py from src/saml2/data/schemas/*.xsd: rank of every child element name in the",
+           "   content model of the class's element / type (see C12/Xsd.v) - do not edit. *)",
+           "From Coq Require Import String List NArith.", "From Verif Require Import Base.Str Base.Xml.",
+           "From VerifGen Require Import ClassTables C12Vocab.", "Import ListNotations.", "Open Scope string_scope.", "",
+           "Definition live_xsd : list (N * list (qname * nat)) := ["]
+    names = tab().classes
+    txt.append(";\n".join("  (* %s *) (%d%%N, [%s])" % (names[i].name, i, "; ".join("(%s, %d)" % (cq_q(list(t)), r) for t, r in m))
+                          for i, m in sorted(ranks.items())))
+    txt.append("].")
+    info = dict(info, changed=common.write_if_changed(SCHEMA_OUT, "\n".join(txt) + "\n"))
+    return info
 
 
 _CQS = {}
@@ -316,6 +536,37 @@ def gen_spec(rng, idx, depth, mode, budget):
         if rng.random() < 0.5:
             spec["xa"] = rand_attr_dict(rng, rec, rng.randint(1, 2), True)
     return spec
+
+
+def gen_full_spec(rng, idx):
+    """EVERY child member present at once (list members: 1-2 values; every value minimal): all pairs of children of
+    the class meet in one element, so a misplaced member of the order table shows whatever its neighbours are."""
+    rec = tab().classes[idx]
+    spec = gen_spec(rng, idx, 0, "rand", [99])
+    spec["k"] = []
+    for _tag, member, k, lst in rec.children:
+        if k is None:
+            continue
+        n = rng.choice([1, 1, 2]) if lst else 1
+        spec["k"].append([member, [gen_spec(rng, k, 0, "min", [99]) for _ in range(n)]])
+    if rng.random() < 0.3:
+        spec["e"] = [rand_ee(rng, 0, False, rec)]
+    return spec
+
+
+def gen_full_doc(rng, idx):
+    """A document with every known child of the class present (list members once or twice; bare elements), in
+    arbitrary order, foreign children in between."""
+    rec = tab().classes[idx]
+    node = gen_doc(rng, idx, 0, [99], hostile=False)
+    kids = list(node["k"])
+    for tag, _m, k, lst in rec.children:
+        for _ in range(rng.choice([1, 1, 2]) if lst else 1):
+            # bare elements: the order of the children is the point here, their content is exercised elsewhere
+            kids.append({"g": list(tag), "a": [], "x": "", "k": []})
+    rng.shuffle(kids)
+    node["k"] = kids
+    return node
 
 
 AV_TYPES = [None, "xs:string", "xs:integer", "xs:boolean", "xs:anyType", "xs:base64Binary", "xsd:string", "my:type",
@@ -633,12 +884,53 @@ def render_text(s, rng):
     return "".join(out)     # ">" is always written as &gt; outside CDATA, so no stray "]]>"
 
 
-def render_doc(tree, rng):
-    """Bytes of a document whose infoset is [tree]; nothing here is shared with the library's writer."""
+# ---- input forms: how one and the same document reaches the parser (the tree must not depend on it)
+FORM_TABLE = [("str", [None, "", "UTF-8", "utf-8"]), ("utf-8", [None, "", "UTF-8"]), ("utf-8-sig", [None, "", "UTF-8"]),
+              ("utf-16-le-bom", [None, "", "UTF-16", "utf-16"]), ("utf-16-be-bom", [None, "", "UTF-16", "utf-16"]),
+              ("utf-16-le", [None, "", "UTF-16", "UTF-16LE"]), ("utf-16-be", [None, "", "UTF-16", "UTF-16BE"]),
+              ("latin-1", ["ISO-8859-1", "iso-8859-1", "latin1"]), ("ascii", ["US-ASCII", "ascii"]),
+              ("cp1252", ["windows-1252", "cp1252"])]
+FORMS = [[e, d] for e, ds in FORM_TABLE for d in ds]
+FALLBACK_FORM = ["utf-16-le-bom", "UTF-16"]      # for a document an 8-bit encoding cannot spell
+
+
+def rand_form(rng):
+    """Uniform over the encodings first (so that no encoding is rare), then over its declarations."""
+    e, ds = rng.choice(FORM_TABLE)
+    return [e, rng.choice(ds)]
+
+
+def apply_form(body, form):
+    """(payload, form used): body (a document without XML declaration) in the given input form."""
+    import codecs
+
+    e, d = form
+    decl = "" if d is None else ('<?xml version="1.0"?>' if d == "" else '<?xml version="1.0" encoding="%s"?>' % d)
+    text = decl + body
+    if e == "str":
+        return text, form
+    if e == "utf-8-sig":
+        return codecs.BOM_UTF8 + text.encode("utf-8"), form
+    if e.endswith("-bom"):
+        return (codecs.BOM_UTF16_LE if e == "utf-16-le-bom" else codecs.BOM_UTF16_BE) + text.encode(e[:-4]), form
+    try:
+        return text.encode(e), form
+    except UnicodeEncodeError:
+        return apply_form(body, FALLBACK_FORM)
+
+
+def form_name(form):
+    return "%s/%s" % (form[0], {None: "no-decl", "": "bare-decl"}.get(form[1], form[1]))
+
+
+def render_doc(tree, rng, form=None):
+    """A document whose infoset is [tree]; nothing here is shared with the library's writer.  form None: UTF-8
+    bytes with a random XML declaration (the historical behaviour); else (payload, form used) of apply_form."""
     out = []
+    decl = ""
     if rng.random() < 0.5:
-        out.append(rng.choice(['<?xml version="1.0" encoding="UTF-8"?>', "<?xml version='1.0'?>",
-                               '<?xml version="1.0" encoding="utf-8" standalone="yes"?>\n']))
+        decl = rng.choice(['<?xml version="1.0" encoding="UTF-8"?>', "<?xml version='1.0'?>",
+                           '<?xml version="1.0" encoding="utf-8" standalone="yes"?>\n'])
     if rng.random() < 0.2:
         out.append("<!-- before -->\n")
     counter = [0]
@@ -713,7 +1005,9 @@ def render_doc(tree, rng):
     emit(tree, {}, None)
     if rng.random() < 0.2:
         out.append("\n<!-- after -->")
-    return "".join(out).encode("utf-8")
+    if form is None:
+        return (decl + "".join(out)).encode("utf-8")
+    return apply_form("".join(out), form)
 
 
 # ---------------------------------------------------------------------------- implementation-only checks
@@ -727,7 +1021,17 @@ ENTITY_DOCS = [
     ("entity-unparsed", '<!DOCTYPE r [<!NOTATION n SYSTEM "n"><!ENTITY e SYSTEM "x" NDATA n>]><r {NS}/>'),
     ("entity-billion-laughs", '<!DOCTYPE r [<!ENTITY a "aaaaaaaaaa"><!ENTITY b "&a;&a;&a;&a;&a;&a;&a;&a;">'
                               '<!ENTITY c "&b;&b;&b;&b;&b;&b;&b;&b;"><!ENTITY d "&c;&c;&c;&c;&c;&c;&c;&c;">]><r {NS}>&d;</r>'),
+    # round 2: other spellings of the same thing (a refusal must not hang on one byte pattern)
+    ("entity-ws-newlines", '<!DOCTYPE\n r\t[\n<!ENTITY\n\te\n"boom"\n>\n]\n><r {NS}>&e;</r>'),
+    ("entity-single-quotes", "<!DOCTYPE r [<!ENTITY e 'boom'>]><r {NS} Format='&e;'>&e;</r>"),
+    ("entity-nested-foreign", '<!DOCTYPE r [<!ENTITY a "boom"><!ENTITY e "&a;&a;">]><r {NS}><f:x xmlns:f="urn:x-verif:foreign" '
+                              'y="&e;">&e;</f:x></r>'),
+    ("entity-attlist-default", '<!DOCTYPE r [<!ENTITY e "boom"><!ATTLIST r Format CDATA "&e;">]><r {NS}>x</r>'),
+    ("entity-after-comment-in-dtd", '<!DOCTYPE r [<!-- <!ELEMENT r ANY> --><!ENTITY e "boom">]><r {NS}>&e;</r>'),
 ]
+# what may stand between the XML declaration and the DOCTYPE (a refusal must not hang on the head of the document)
+ENTITY_PADS = ["", "\n", "<!-- pad -->", "<!--" + " pad" * 300 + " -->\n", "<!--" + " pad" * 2000 + " -->\n<?pi x?>\n",
+               " " * 70000 + "\n"]
 MALFORMED_DOCS = [
     ("malformed-unclosed", "<r {NS}><x></r>"),
     ("malformed-two-roots", "<r {NS}/><r {NS}/>"),
@@ -743,15 +1047,49 @@ IMPL_CLASSES = ["saml2.saml.NameID", "saml2.saml.Issuer", "saml2.samlp.Response"
 
 
 def impl_doc(idx, template):
-    rec = tab().classes[idx]
-    ns, local = rec.tag
+    """idx None: the document for saml2.extension_element_from_string (any root will do)."""
+    ns, local = tab().classes[idx].tag if idx is not None else (FOREIGN_NS[0], "ext")
     return template.replace("<r ", "<%s " % local).replace("</r>", "</%s>" % local).replace("DOCTYPE r", "DOCTYPE %s" % local) \
+        .replace("DOCTYPE\n r", "DOCTYPE\n %s" % local).replace("ATTLIST r ", "ATTLIST %s " % local) \
         .replace("{NS}", 'xmlns="%s"' % ns)
+
+
+def dtd_less(doc):
+    """The control of an entity-declaring document: the same document without DOCTYPE, references spelled out."""
+    import re
+
+    return re.sub(r"&[A-Za-z]\w*;", "boom", re.sub(r"<!DOCTYPE.*?\]\s*>", "", doc, flags=re.S))
+
+
+def entry_parse(case, payload):
+    """('ok'|'none'|'raise', exception name) of the entry point the case names on payload."""
+    if case.get("entry") == "ee":
+        import saml2
+
+        try:
+            o = saml2.extension_element_from_string(payload)
+        except Exception as e:  # noqa: BLE001
+            return ("raise", type(e).__name__)
+        return ("ok" if o is not None else "none", None)
+    return lib_parse(case["c"], payload)[:2]
+
+
+def observe_entity(case):
+    """An entity-declaring document in an input form: refused?  The control (same form, no DTD) says whether a
+    refusal means anything."""
+    form = case.get("form") or ["utf-8", None]
+    pad = ENTITY_PADS[case.get("pad", 0)]
+    r = entry_parse(case, apply_form(pad + case["doc"], form)[0])
+    c = entry_parse(case, apply_form(pad + dtd_less(case["doc"]), form)[0])
+    return {"ok": r[0] == "raise", "detail": r[1] if r[0] == "raise" else r[0], "control": c[0],
+            "form": form_name(form)}
 
 
 def observe_impl(case):
     idx = case["c"]
     what = case["what"]
+    if what.startswith("entity-") and "form" in case:
+        return observe_entity(case)
     if what.startswith("entity-") or what.startswith("malformed-"):
         r = lib_parse(idx, case["doc"].encode("utf-8"))
         return {"ok": r[0] == "raise", "detail": r[1] if r[0] == "raise" else r[0]}
@@ -888,7 +1226,59 @@ def generate(ctx):
                 doc = '<v xmlns="%s" xmlns:xsi="%s" xmlns:xs="%s" xsi:type="%s">%s</v>' % (rec.tag[0], XSI, XS, typ, x)
                 doc = doc.replace("<v ", "<%s " % rec.tag[1]).replace("</v>", "</%s>" % rec.tag[1])
                 cases.append({"kind": "impl", "c": i, "what": "av-unmodelled", "doc": doc})
+    generate_round2(ctx, cases)
     return cases
+
+
+def pick_pad(rng, form):
+    if rng.random() < 0.5:
+        return 0
+    # UTF-16 without BOM and without declaration is only recognisable when the document starts with "<"
+    ok = [j for j, p in enumerate(ENTITY_PADS) if p[:1] in ("", "<") or not (form[0] in ("utf-16-le", "utf-16-be") and form[1] is None)]
+    return rng.choice(ok)
+
+
+def generate_round2(ctx, cases):
+    """Dimensions added after seeded changes C12-3 / C12-4 were missed.  Uses its own PRNG (seeded from ctx.rng after
+    everything else was drawn), so the cases above are what they were before."""
+    import random
+
+    rng = random.Random(ctx.rng.getrandbits(64))
+    t = tab()
+    ranked = xsd_ranks()[0]
+    # (a) every child member of a class present at once: instance + independently rendered document
+    for i, r in enumerate(t.classes):
+        if r.kind != "plain" or sum(1 for _t, _m, k, _l in r.children if k is not None) < 2:
+            continue
+        if not (r.core or i in ranked or ctx.thorough or rng.random() < 0.25):
+            continue
+        for _ in range(3 if ctx.thorough else 1):
+            cases.append({"kind": "rt", "c": i, "mode": "full", "spec": gen_full_spec(rng, i)})
+            cases.append({"kind": "doc", "c": i, "tree": gen_full_doc(rng, i), "rseed": rng.getrandbits(32), "root": "own",
+                          "form": rand_form(rng), "full": True})
+    # (b) the input form of the documents above: half of them keep the historical form (UTF-8 bytes)
+    for c in cases:
+        if c["kind"] == "doc" and "form" not in c and not c.get("wide") and rng.random() < 0.5:
+            c["form"] = rand_form(rng)
+    # (c) entity-declaring documents x input form x padding x entry point
+    def entity(i, what, tpl, form, entry="cls"):
+        cases.append({"kind": "impl", "c": i, "what": what, "doc": impl_doc(None if entry == "ee" else i, tpl),
+                      "form": form, "pad": pick_pad(rng, form), "entry": entry})
+
+    listed = [t.by_name[n] for n in IMPL_CLASSES]
+    for what, tpl in ENTITY_DOCS:
+        for form in FORMS:                                      # complete for one class and (sampled) for ExtensionElement
+            entity(listed[0], what, tpl, form)
+            if ctx.thorough or rng.random() < 0.35:
+                entity(listed[0], what, tpl, form, "ee")
+        for i in listed[1:]:
+            for form in (FORMS if ctx.thorough else [rand_form(rng) for _ in range(4)]):
+                entity(i, what, tpl, form)
+    for i, r in enumerate(t.classes):                           # every <module>.<element>_from_string once
+        if r.core or ctx.thorough:
+            for _ in range(4 if ctx.thorough else 1):
+                what, tpl = rng.choice(ENTITY_DOCS)
+                entity(i, what, tpl, rand_form(rng))
 
 
 def observe(case):
@@ -917,16 +1307,20 @@ def _observe(case):
     # doc
     import random
 
-    doc = render_doc(case["tree"], random.Random(case["rseed"]))
+    used = None
+    doc = render_doc(case["tree"], random.Random(case["rseed"]), case.get("form"))
+    if case.get("form") is not None:
+        doc, used = doc
     try:
         back = read(doc)
-    except ET.ParseError as e:
+    except (ET.ParseError, ValueError, LookupError) as e:
         back = "not well-formed: %s" % e
     if back != case["tree"]:
-        return {"error": "renderer self-check failed", "doc": doc.decode("utf-8", "replace")[:400], "back": str(back)[:300]}
+        return {"error": "renderer self-check failed", "doc": repr(doc)[:400], "back": str(back)[:300]}
     r = lib_parse(idx, doc)
     ch = chain(idx, r)
-    return {"r": pres(r), "t2": ch["t2"], "r2": ch["r2"], "same23": ch["same23"], "doc_len": len(doc)}
+    return {"r": pres(r), "t2": ch["t2"], "r2": ch["r2"], "same23": ch["same23"], "doc_len": len(doc),
+            "form": "utf-8/historical" if used is None else form_name(used)}
 
 
 # ---------------------------------------------------------------------------- Coq terms
@@ -1078,6 +1472,9 @@ def nontrivial(case, obs):
     name = tab().classes[case["c"]].name
     out = _outcome(case, obs)
     if case["kind"] == "impl":
+        if "form" in case:
+            return ("impl", "extension_element" if case.get("entry") == "ee" else name, case["what"], out, obs.get("form"),
+                    case.get("pad"), obs.get("control"))
         return ("impl", name, case["what"], out)
     if "error" in obs or "skip" in obs:
         return None
@@ -1107,7 +1504,8 @@ def histogram(cases, observed):
     if _TABLE_ERROR is not None:
         return {"table_error": _TABLE_ERROR}
     t = tab()
-    h = {"by_kind": {}, "by_module": {}, "outcome": {}, "features": {}, "classes_covered": 0, "impl": {}}
+    h = {"by_kind": {}, "by_module": {}, "outcome": {}, "features": {}, "classes_covered": 0, "impl": {},
+         "entity_forms": {}, "doc_forms": {}}
     seen = set()
     for c, o in zip(cases, observed):
         kind = c["kind"] + (":" + c["mode"] if c["kind"] == "rt" else (":" + c.get("root", "") if c["kind"] == "doc" else ""))
@@ -1119,7 +1517,12 @@ def histogram(cases, observed):
         if c["kind"] == "impl":
             key = c["what"] + ":" + str(_outcome(c, o))
             h["impl"][key] = h["impl"].get(key, 0) + 1
+            if "form" in c:
+                key = "%s control=%s" % (o.get("form"), o.get("control"))
+                h["entity_forms"][key] = h["entity_forms"].get(key, 0) + 1
             continue
+        if c["kind"] == "doc" and "form" in o:
+            h["doc_forms"][o["form"]] = h["doc_forms"].get(o["form"], 0) + 1
         h["outcome"][out] = h["outcome"].get(out, 0) + 1
         if "error" in o or "skip" in o:
             continue
